@@ -136,3 +136,9 @@ func VerifC08_EmptyVsAnswer() {
 	verifrt.Reach("raced:"+tag, true)
 	_ = time.Second
 }
+
+// Emptying a channel keeps the subscriptions working: with the REAL delivery pump, a consumer
+// that sat at its RDY limit when the channel was emptied has nothing outstanding afterwards and
+// is served again (the pump is woken), under every short history of consumer events that contains
+// the Empty (shared with C03).
+func VerifC08_EmptyKeepsSubscriptionsServed() { verifPumpHistory() }
